@@ -41,6 +41,8 @@ type ProviderCache struct {
 	seq       uint
 	write     map[peer.ID]*cacheInfo
 	writeLock chan struct{}
+	// refreshIncomplete is true if the last refresh did not run to completion.
+	refreshIncomplete bool
 
 	needsRefresh atomic.Bool
 	refreshIn    time.Duration
@@ -261,7 +263,13 @@ func (pc *ProviderCache) Refresh(ctx context.Context) error {
 		// Refresh already in progress, wait for it to finish.
 		select {
 		case pc.writeLock <- struct{}{}:
+			incomplete := pc.refreshIncomplete
 			<-pc.writeLock
+			if incomplete {
+				// The refresh that was waited for did not complete, so its
+				// outcome cannot be reported as this one's.
+				return pc.Refresh(ctx)
+			}
 		case <-ctx.Done():
 		}
 		return ctx.Err()
@@ -270,6 +278,7 @@ func (pc *ProviderCache) Refresh(ctx context.Context) error {
 		<-pc.writeLock
 	}()
 
+	pc.refreshIncomplete = true
 	pc.seq++
 	seq := pc.seq
 
@@ -349,6 +358,7 @@ func (pc *ProviderCache) Refresh(ctx context.Context) error {
 
 	// If the update map is small relative to the main map, do not generate a
 	// new main map yet.
+	pc.refreshIncomplete = false
 	if !needMerge(len(updates), len(read.m)) {
 		pc.read.Store(&readOnly{m: read.m, u: updates})
 		return nil
